@@ -207,6 +207,7 @@ Fixpoint ranges_eqb (x y : list (Z * Z)) : bool :=
 Definition inv_b (b : bv) (rs : rows) : bool :=
   canonicalb (needed b) &&
   ranges_eqb rs (needed b) &&
+  (0 <=? max0 (maxv b)) &&
   forallb (fun r => (1 <=? fst r) && (snd r <? max0 (maxv b))) (needed b) &&
   forallb (partial_ok b) (partials b) &&
   keys_sorted 1 (partials b).
